@@ -185,6 +185,9 @@ type Node struct {
 	FailPreBlock int  // ProcessPreBlock fails this many more times
 	FailBlock    int  // ProcessBlock (anti-MEV only) fails this many more times
 	RejectBlocks bool // VerifyBlock returns false regardless of content
+	// RejectHeights: at these heights this node's application rejects every proposed block (a policy difference
+	// between nodes: the others accept what this one refuses)
+	RejectHeights map[uint32]bool
 
 	Log    []Event
 	Cur    *Call
@@ -374,7 +377,7 @@ func (n *Node) verifyTxs(txs []dbft.Transaction[vt.H]) bool {
 			m.VerifyTxs(n, txs)
 		}
 	}
-	if n.RejectBlocks {
+	if n.RejectBlocks || n.RejectHeights[n.D.BlockIndex] {
 		return false
 	}
 	for _, tx := range txs {
